@@ -228,7 +228,7 @@ func execFn(f []string) vlib.Res {
 	}
 	if f[1] == "new" {
 		switch f[0] {
-		case "mc", "mnz", "mttl", "nsttl", "lease", "rem", "repl", "dpx", "wr", "hit", "glue":
+		case "mc", "mnz", "mttl", "nsttl", "lease", "rem", "repl", "dpx", "wr", "hit", "glue", "vref":
 			return vlib.Res{Impl: "ok"} // case header of a stateless group (shrinker anchor)
 		}
 	}
@@ -373,6 +373,72 @@ func execFn(f []string) vlib.Res {
 			}
 		}
 		return vlib.Res{Impl: fmtT(got) + " " + strconv.FormatUint(gk, 10), Oracle: or, Tags: "nt"}
+	case "vref":
+		// the REAL validReferral (the guard in front of the delegation cache, also applied when a lookup
+		// picks its winner): vref <referral> <zone asked> <qname> <ns|nons> <coh|incoh> <in|ch>
+		// names: dotted labels leaf first, any letter case, `.` = root
+		fq := func(x string) string {
+			if x == "." {
+				return "."
+			}
+			return strings.Trim(x, ".") + "."
+		}
+		ref, auth, qn := fq(f[1]), fq(f[2]), fq(f[3])
+		resp := new(dns.Msg)
+		resp.SetQuestion(qn, dns.TypeA)
+		class := uint16(dns.ClassINET)
+		if f[6] == "ch" {
+			class = dns.ClassCHAOS
+		}
+		if f[4] == "ns" {
+			resp.Ns = append(resp.Ns, &dns.NS{Hdr: dns.RR_Header{Name: ref, Rrtype: dns.TypeNS, Class: class, Ttl: 60}, Ns: "ns1." + strings.TrimPrefix(ref, ".")})
+			if f[5] == "incoh" {
+				resp.Ns = append(resp.Ns, &dns.NS{Hdr: dns.RR_Header{Name: "other.example.", Rrtype: dns.TypeNS, Class: class, Ttl: 60}, Ns: "ns2.other.example."})
+			}
+		}
+		got := resolver.VerifC08ValidReferral(resp, auth, dns.Question{Name: qn, Qtype: dns.TypeA, Qclass: dns.ClassINET})
+		// oracle, spelled on strings: accepted only if it names a zone STRICTLY below the zone asked and at or above qname
+		labels := func(x string) []string {
+			x = strings.ToLower(strings.Trim(x, "."))
+			if x == "" {
+				return nil
+			}
+			l := strings.Split(x, ".")
+			for i, j := 0, len(l)-1; i < j; i, j = i+1, j-1 {
+				l[i], l[j] = l[j], l[i]
+			}
+			return l // root first
+		}
+		pre := func(a, b []string) bool {
+			if len(a) > len(b) {
+				return false
+			}
+			for i := range a {
+				if a[i] != b[i] {
+					return false
+				}
+			}
+			return true
+		}
+		lr, la, lq := labels(ref), labels(auth), labels(qn)
+		want := f[4] == "ns" && f[5] == "coh" && f[6] == "in" && pre(la, lr) && len(la) < len(lr) && pre(lr, lq)
+		or := "ok"
+		if got != want {
+			why := "rejected-a-progressing-referral"
+			if got {
+				why = "accepted-a-non-progressing-referral"
+				switch {
+				case len(lr) == len(la) && pre(la, lr):
+					why = "accepted-a-self-referral"
+				case pre(lr, la):
+					why = "accepted-an-upward-referral"
+				case !pre(lr, lq):
+					why = "accepted-an-off-path-referral"
+				}
+			}
+			or = "FAIL sig=validReferral/" + why
+		}
+		return vlib.Res{Impl: vlib.B(got), Oracle: or, Tags: "nt,vref"}
 	case "hit":
 		// a cache hit folds the entry's lifetime into the request: hit <have|z> <stored> <ttl ns> <cut|z> <cutKey>
 		have, stored, ttl, cut, ck := parseT(f[1]), parseT(f[2]), time.Duration(vlib.AtoI64(f[3])), parseT(f[4]), vlib.AtoU64(f[5])
@@ -554,7 +620,54 @@ func genTTLs(r *vlib.R, allowEmpty bool) string {
 func genFnCase(r *vlib.R, emit func(string)) int {
 	n := 0
 	e := func(s string) { emit(s); n++ }
-	switch r.Intn(12) {
+	switch r.Intn(13) {
+	case 12: // the referral guard
+		e("vref new")
+		lab := func() string { return vlib.Pick(r, []string{"a", "B", "c", "Vic", "test", "TEST", "x9"}) }
+		for i := 0; i < 10; i++ {
+			depth := 1 + r.Intn(4)
+			var q []string // root first
+			for j := 0; j < depth; j++ {
+				q = append(q, lab())
+			}
+			show := func(l []string) string {
+				if len(l) == 0 {
+					return "."
+				}
+				var p []string
+				for j := len(l) - 1; j >= 0; j-- {
+					x := l[j]
+					if r.Chance(1, 4) {
+						x = strings.ToUpper(x)
+					}
+					p = append(p, x)
+				}
+				return strings.Join(p, ".")
+			}
+			authLen := r.Intn(depth + 1)
+			auth := q[:authLen]
+			var ref []string
+			switch r.Intn(7) {
+			case 0: // self
+				ref = auth
+			case 1: // upward
+				ref = auth[:r.Intn(authLen+1)]
+			case 2: // sideways
+				ref = append(append([]string(nil), auth...), "zz")
+			case 3: // off path deeper
+				ref = append(append([]string(nil), q...), lab())
+			case 4: // unrelated
+				ref = []string{"other", lab()}
+			default: // progressing
+				if authLen < depth {
+					ref = q[:authLen+1+r.Intn(depth-authLen)]
+				} else {
+					ref = q
+				}
+			}
+			e(fmt.Sprintf("vref %s %s %s %s %s %s", show(ref), show(auth), show(q), vlib.Pick(r, []string{"ns", "ns", "ns", "nons"}),
+				vlib.Pick(r, []string{"coh", "coh", "coh", "incoh"}), vlib.Pick(r, []string{"in", "in", "in", "ch"})))
+		}
 	case 11: // cache hits bound the request; referral glue vs the glue cache
 		e("hit new")
 		for i := 0; i < 6; i++ {
